@@ -12,7 +12,7 @@ from concurrent.futures import ThreadPoolExecutor
 
 from lib import gN, gbool, bspec_in, bspec_obs, lcg_bytes, hexs
 
-HEADER = "From CJ Require Import Common.Base C15.Model C15.ModelName C15.ModelObf C15.ModelAny C15.ModelDns C15.ModelB32 C15.ModelExch C15.Run.\n"
+HEADER = "From CJ Require Import Common.Base C15.Model C15.ModelName C15.ModelObf C15.ModelAny C15.ModelDns C15.ModelB32 C15.ModelExch C15.ModelPb C15.Run.\n"
 DNSREG = "pkg/registrars/dns-registrar/"
 PKGS = {
     "msgformat": (".", DNSREG + "msgformat", "c15/msgformat_driver_test.go", "TestVerifC15Msgformat"),
@@ -585,6 +585,226 @@ def post_query(ctx, c):
                                          hexs(bytes.fromhex(r["out"])))
 
 
+# ------------------------------------------------------------------ protobuf codec
+def pb_varint(n):
+    out = bytearray()
+    while n >= 128:
+        out.append(128 | (n & 127))
+        n >>= 7
+    out.append(n)
+    return bytes(out)
+
+
+def pb_field(num, wt, payload):
+    """payload: int for wire type 0, bytes otherwise (length prefix added for wire type 2)"""
+    t = pb_varint(num * 8 + wt)
+    if wt == 0:
+        return t + pb_varint(payload)
+    if wt == 2:
+        return t + pb_varint(len(payload)) + payload
+    return t + payload
+
+
+PBKIND = {"generic": 0, "prefix": 1, "dtls": 2, "any": 3}
+UNKS = [b"", pb_field(100, 0, 7), pb_field(5, 2, b"xyz"), pb_field(13, 2, b"\x01"), pb_field(1, 5, b"abcd"), pb_field(2, 1, b"12345678"),
+        pb_field(3, 2, b""), pb_field(536870911, 0, 1), pb_field(6, 0, 1 << 63) + pb_field(9, 0, 0), pb_field(4, 2, b"q")]
+
+
+def rand_pb(rng, kind):
+    ob = lambda: rng.choice([None, True, False])   # noqa: E731
+    oi = lambda: rng.choice([None, 0, 1, -1, -3, 2147483647, -2147483648, rng.randrange(-1 << 31, 1 << 31)])   # noqa: E731
+    oby = lambda: rng.choice([None, "", rb(rng, rng.choice([1, 4, 16])).hex()])   # noqa: E731
+    unk = rng.choice(UNKS).hex()
+    if kind == "generic":
+        return {"rand": ob(), "unk": unk}
+    if kind == "prefix":
+        return {"id": oi(), "prefix": oby(), "flush": oi(), "rand": ob(), "unk": unk}
+    if kind == "dtls":
+        def addr():
+            if rng.random() < 0.3:
+                return None
+            return {"ip": oby(), "port": rng.choice([None, 0, 53, 65535, 4294967295]), "unk": rng.choice(UNKS[:3] + [pb_field(1, 0, 5)]).hex()}
+        return {"src4": addr(), "src6": addr(), "rand": ob(), "unordered": ob(), "unk": unk}
+    url = rng.choice([b"", b"type.googleapis.com/proto.GenericTransportParams", b"x"])
+    return {"url": url.hex(), "value": rb(rng, rng.choice([0, 1, 9])).hex(), "unk": rng.choice(UNKS[:3]).hex()}
+
+
+def pb_encode(kind, v):
+    """the harness' own encoder (inputs for the decoders; compared with proto.Marshal through the model)"""
+    out = b""
+    b2 = lambda x: 1 if x else 0   # noqa: E731
+    i32 = lambda z: z if z >= 0 else (1 << 64) + z   # noqa: E731
+    if kind == "generic":
+        if v.get("rand") is not None:
+            out += pb_field(13, 0, b2(v["rand"]))
+    elif kind == "prefix":
+        if v.get("id") is not None:
+            out += pb_field(1, 0, i32(v["id"]))
+        if v.get("prefix") is not None:
+            out += pb_field(2, 2, bytes.fromhex(v["prefix"]))
+        if v.get("flush") is not None:
+            out += pb_field(3, 0, i32(v["flush"]))
+        if v.get("rand") is not None:
+            out += pb_field(13, 0, b2(v["rand"]))
+    elif kind == "dtls":
+        for num, key in ((1, "src4"), (2, "src6")):
+            a = v.get(key)
+            if a is not None:
+                ab = b""
+                if a.get("ip") is not None:
+                    ab += pb_field(1, 2, bytes.fromhex(a["ip"]))
+                if a.get("port") is not None:
+                    ab += pb_field(2, 0, a["port"])
+                out += pb_field(num, 2, ab + bytes.fromhex(a.get("unk", "")))
+        if v.get("rand") is not None:
+            out += pb_field(3, 0, b2(v["rand"]))
+        if v.get("unordered") is not None:
+            out += pb_field(4, 0, b2(v["unordered"]))
+    else:
+        if v.get("url"):
+            out += pb_field(1, 2, bytes.fromhex(v["url"]))
+        if v.get("value"):
+            out += pb_field(2, 2, bytes.fromhex(v["value"]))
+    return out + bytes.fromhex(v.get("unk", ""))
+
+
+def gen_pb(ctx):
+    rng, quick = ctx.rng, ctx.tier == "quick"
+    out = []
+    kinds = ["generic", "prefix", "dtls", "any"]
+    samples = {k: [] for k in kinds}
+    for k in kinds:
+        for _ in range(14 if quick else 300):
+            v = rand_pb(rng, k)
+            samples[k].append(v)
+            out.append(Case("pb_rt", "transports", {"op": "pb_rt", "kind": k, "pb": v}, (k, v)))
+
+    def dec(k, d):
+        out.append(Case("pb_dec", "transports", {"op": "pb_dec", "kind": k, "data": bytes(d).hex()}, (k, bytes(d))))
+    ten = lambda last: b"\xff" * 9 + bytes([last])   # noqa: E731
+    hand = [b"", pb_field(13, 0, 1) + pb_field(13, 0, 0), pb_field(13, 0, 2), pb_field(13, 0, 1 << 63), b"\x68" + ten(1), b"\x68" + ten(2),
+            b"\x68\x80\x80\x00", b"\x68", b"\x68\x80", b"\x00\x01", pb_varint(536870912 * 8) + b"\x01", pb_varint(536870911 * 8) + b"\x01",
+            b"\x0e\x01", b"\x0f\x01", b"\x0b\x0c", b"\x0c", b"\x0b", pb_field(1, 0, (1 << 32) + 5), pb_field(1, 0, (1 << 31)), pb_field(3, 0, (1 << 64) - 1),
+            pb_field(2, 2, b"ab") + pb_field(2, 2, b""), b"\x12\x05ab", b"\x12" + ten(1), pb_field(1, 2, pb_field(1, 2, b"\x7f")) + pb_field(1, 2, pb_field(2, 0, 9)),
+            pb_field(1, 2, b"\x08"), pb_field(1, 2, pb_field(2, 0, (1 << 40) + 3)), pb_field(2, 2, pb_field(7, 5, b"wxyz")), pb_field(1, 5, b"abc"),
+            pb_field(1, 1, b"1234567"), pb_field(1, 1, b"12345678"), pb_field(1, 2, b"type.googleapis.com/x") + pb_field(2, 2, b"v") + pb_field(1, 2, b"y"),
+            pb_field(1, 2, b"\xc3\xa9"), pb_field(1, 2, b"\xff")]
+    for k in kinds:
+        for d in hand:
+            dec(k, d)
+        for _ in range(10 if quick else 300):
+            n = rng.choice([1, 2, 3, 5, 8, 13])
+            dec(k, bytes(rng.choice([0x08, 0x10, 0x12, 0x18, 0x20, 0x68, 0x0a, 0x00, 0x01, 0x02, 0x80, 0xff, rng.getrandbits(8)]) for _ in range(n)))
+        # bytes of every other type (what URL-less unpacking into the wrong type does)
+        for k2 in kinds:
+            for v in samples[k2][: (4 if quick else 60)]:
+                dec(k, pb_encode(k2, v))
+    # the station's path: Any bytes -> UnmarshalAnypbTo(dst)
+    for k in ("generic", "prefix", "dtls"):
+        for dst in ("generic", "prefix", "dtls"):
+            for mode in ("empty", "keep", "tapdance", "other"):
+                for v in samples[k][: (3 if quick else 40)]:
+                    a = {"url": any_url(k, mode).encode().hex(), "value": pb_encode(k, v).hex(), "unk": ""}
+                    d = pb_encode("any", a)
+                    out.append(Case("anypb_bytes", "transports", {"op": "anypb_bytes", "dstkind": dst, "data": d.hex()}, (k, dst, mode, v, d)))
+    return out
+
+
+def g_opt(x, f):
+    return "None" if x is None else "(Some %s)" % f(x)
+
+
+def g_bool(x):
+    return "true" if x else "false"
+
+
+def g_z(x):
+    return "(%d)%%Z" % x
+
+
+def g_hexs(x):
+    return hexs(bytes.fromhex(x))
+
+
+def g_addr(a):
+    return "(%s, %s, %s)" % (g_opt(a.get("ip"), g_hexs), g_opt(a.get("port"), gN), g_hexs(a.get("unk") or ""))
+
+
+def g_pbval(kind, v):
+    if v is None:
+        return "PNone"
+    u = g_hexs(v.get("unk") or "")
+    if kind == "generic":
+        return "(PGeneric %s %s)" % (g_opt(v.get("rand"), g_bool), u)
+    if kind == "prefix":
+        return "(PPrefix %s %s %s %s %s)" % (g_opt(v.get("id"), g_z), g_opt(v.get("prefix"), g_hexs), g_opt(v.get("flush"), g_z), g_opt(v.get("rand"), g_bool), u)
+    if kind == "dtls":
+        return "(PDtls %s %s %s %s %s)" % (g_opt(v.get("src4"), g_addr), g_opt(v.get("src6"), g_addr), g_opt(v.get("rand"), g_bool),
+                                           g_opt(v.get("unordered"), g_bool), u)
+    return "(PAny %s %s %s)" % (g_hexs(v.get("url") or ""), g_hexs(v.get("value") or ""), u)
+
+
+def pb_same(kind, v, back):
+    """typed equality of what was marshalled and what came back (unknown fields compared as raw bytes: they are re-emitted verbatim)"""
+    if back is None:
+        return False
+    keys = {"generic": ["rand"], "prefix": ["id", "prefix", "flush", "rand"], "dtls": ["src4", "src6", "rand", "unordered"], "any": ["url", "value"]}[kind]
+    norm = lambda x: (x or "") if isinstance(x, str) or x is None and kind == "any" else x   # noqa: E731
+    for k in keys:
+        a, b = v.get(k), back.get(k)
+        if kind == "any":
+            a, b = a or "", b or ""
+        if isinstance(a, dict) or isinstance(b, dict):
+            if not (isinstance(a, dict) and isinstance(b, dict) and a.get("ip") == b.get("ip") and a.get("port") == b.get("port")
+                    and (a.get("unk") or "") == (b.get("unk") or "")):
+                return False
+        elif a != b:
+            return False
+    return (v.get("unk") or "") == (back.get("unk") or "")
+
+
+def post_pb_rt(ctx, c):
+    (kind, v), r = c.aux, c.res
+    case = {"fam": "pb_rt", "kind": kind, "pb": v}
+    if r.get("panic"):
+        ctx.fail("pb/panic", "proto.Marshal/Unmarshal panicked: %s" % r["panic"], case)
+        return None
+    ctx.count(("pb_rt", kind, repr(v)), kind="pb_rt/%s/%s" % (kind, "ok" if r["ok"] else "err"))
+    if not r["ok"]:
+        ctx.broken("driver", "proto.Marshal rejected a generated message: %s" % r["err"], case)
+        return None
+    if not (r["ok2"] and pb_same(kind, v, r.get("pb"))):
+        ctx.fail("pb/roundtrip/" + kind, "proto.Unmarshal(proto.Marshal(m)) != m for %s (err=%r)" % (kind, r["err2"]), case)
+    out = bytes.fromhex(r["out"])
+    return ["CPbEnc %s %s" % (g_pbval(kind, v), hexs(out)),
+            "CPbDec %s %s %s %s" % (gN(PBKIND[kind]), hexs(out), g_bool(r["ok2"]), g_pbval(kind, r.get("pb") if r["ok2"] else None))]
+
+
+def post_pb_dec(ctx, c):
+    (kind, d), r = c.aux, c.res
+    if r.get("panic"):
+        ctx.fail("pb/panic", "proto.Unmarshal panicked: %s" % r["panic"], {"fam": "pb_dec", "kind": kind, "data": d.hex()})
+        return None
+    ctx.count(("pb_dec", kind, d), kind="pb_dec/%s/%s" % (kind, "ok" if r["ok"] else "err"))
+    return "CPbDec %s %s %s %s" % (gN(PBKIND[kind]), hexs(d), g_bool(r["ok"]), g_pbval(kind, r.get("pb") if r["ok"] else None))
+
+
+def post_anypb_bytes(ctx, c):
+    (k, dst, mode, v, d), r = c.aux, c.res
+    case = {"fam": "anypb_bytes", "kind": k, "dstkind": dst, "url": mode, "pb": v}
+    if r.get("panic"):
+        ctx.fail("anypb/panic", "UnmarshalAnypbTo panicked: %s" % r["panic"], case)
+        return None
+    ctx.count(("anypb_bytes", k, dst, mode, repr(v)), kind="anypb_bytes/%s/%s" % (mode if k == dst else "cross-" + mode, "ok" if r["ok2"] else "err"))
+    if k == dst and mode in ("empty", "keep", "tapdance"):
+        if not (r["ok"] and r["ok2"] and pb_same(dst, dict(v, unk=v.get("unk", "")), r.get("pb"))):
+            ctx.fail("anypb/roundtrip-bytes/" + mode, "the station did not recover the %s parameters from the Any bytes (URL mode %s, err=%r)"
+                     % (k, mode, r["err2"]), case)
+    if r["ok2"] and (mode == "other" or (k != dst and mode in ("keep", "tapdance"))):
+        ctx.fail("anypb/wrong-type-accepted", "Any bytes of a %s with a non-empty URL of another type were unpacked into %s" % (k, dst), case)
+    return "CAnyBytes %s %s %s %s %s" % (gN(PBKIND[dst]), hexs(d), g_bool(r["ok"]), g_bool(r["ok2"]), g_pbval(dst, r.get("pb") if r["ok2"] else None))
+
+
 KINDS = {"generic": (0, "GenericTransportParams", 1), "prefix": (1, "PrefixTransportParams", 3),
          "dtls": (2, "DTLSTransportParams", 2), "c2s": (3, "ClientToStation", 2)}
 
@@ -875,7 +1095,7 @@ def post_msg_rt(ctx, c):
                                       g_msg(r.get("msg") if r.get("ok2") else None, g_obs_rr))
 
 
-TERMS = {"name_string": post_name_string, "exchange": post_exchange, "query": post_query, "msg_rt": post_msg_rt, "msg_dec": post_msg_dec, "anypb": post_any, "obf": post_obf, "reveal": post_reveal, "fmt": post_fmt, "name_rt": post_name_rt, "read_name": post_read_name, "trim": post_trim,
+TERMS = {"pb_rt": post_pb_rt, "pb_dec": post_pb_dec, "anypb_bytes": post_anypb_bytes, "name_string": post_name_string, "exchange": post_exchange, "query": post_query, "msg_rt": post_msg_rt, "msg_dec": post_msg_dec, "anypb": post_any, "obf": post_obf, "reveal": post_reveal, "fmt": post_fmt, "name_rt": post_name_rt, "read_name": post_read_name, "trim": post_trim,
          "chunks": post_chunks, "b32": post_b32}
 
 
@@ -964,7 +1184,7 @@ def run(ctx):
     if rc != 0:
         ctx.broken("examples", "non-vacuity examples (C15/Examples.v) or the case evaluator (C15/Run.v) no longer check: " + out[-500:])
     _t("coq props+examples")
-    cases = replay_cases(ctx) + gen_fmt(ctx) + gen_names(ctx) + gen_req(ctx) + gen_obf(ctx) + gen_any(ctx) + gen_msg(ctx) + gen_query(ctx) + gen_exch(ctx)
+    cases = replay_cases(ctx) + gen_fmt(ctx) + gen_names(ctx) + gen_req(ctx) + gen_obf(ctx) + gen_any(ctx) + gen_msg(ctx) + gen_query(ctx) + gen_exch(ctx) + gen_pb(ctx)
     if not run_go(ctx, cases):
         return
     _t("gen + go stage 1")
@@ -987,8 +1207,8 @@ def run(ctx):
     for c in cases + stage2:
         if c.fam in TERMS:
             t = TERMS[c.fam](ctx, c)
-            if t:
-                terms.append(t)
+            for t1 in (t if isinstance(t, list) else [t] if t else []):
+                terms.append(t1)
                 tcases.append(c)
     # send: requester -> wire -> (dns parse, responder payload)
     import base64
@@ -1038,6 +1258,9 @@ def run(ctx):
                        "msg_dec/ok", "msg_dec/eof", "msg_dec/trailing", "msg_dec/reserved", "msg_dec/ptrs",
                        "query/payload", "query/none", "query/rcode1", "query/rcode3", "query/rcode4", "query/rcode0",
                        "exchange/ok", "exchange/req-too-long", "exchange/resp-too-long",
+                       "pb_rt/generic/ok", "pb_rt/prefix/ok", "pb_rt/dtls/ok", "pb_rt/any/ok", "pb_dec/prefix/ok", "pb_dec/prefix/err",
+                       "pb_dec/dtls/ok", "pb_dec/dtls/err", "pb_dec/any/err", "anypb_bytes/empty/ok", "anypb_bytes/cross-empty/ok",
+                       "anypb_bytes/cross-keep/err", "anypb_bytes/other/err",
                        "anypb/keep/ok", "anypb/empty/ok", "anypb/tapdance/ok", "anypb/other/err", "anypb/cross-keep/err", "anypb/nil/ok"])
     _t("oracle + terms")
     mm = ctx.coq_mismatches("all", HEADER, terms, "chk", shard=max(60, (len(terms) + 11) // 12))
